@@ -169,7 +169,8 @@ def gen_program(rng, dev, table):
                 regs=dict(a=rng.randrange(256), x=rng.randrange(256), y=rng.randrange(256),
                           sp=rng.choice([0xff, 0xfd, 0x01, 0x00, rng.randrange(256)]),
                           p=rng.randrange(256) & ~0x08 | rng.choice([0, 0, 8])),
-                subs=subs, cfg=cfg)
+                subs=subs, cfg=cfg,
+                load=rng.choice(['subject', 'subject', 'write', 'write', 'write-overrun']))
 
 
 def image(prog):
@@ -186,9 +187,28 @@ def lockstep(prog, steps, classes=None):
     classes = classes or devices()
     cls = classes[prog['dev']]
     img = image(prog)
-    plain = list(img)
-    backing = list(img)
-    obs = ObservableMemory(subject=backing, addrWidth=16)
+    mode = prog.get('load', 'subject')
+    if mode == 'subject':
+        plain = list(img)
+        backing = list(img)
+        obs = ObservableMemory(subject=backing, addrWidth=16)
+    else:
+        # the same image brought in with the bulk write() in several blocks (how a monitor `load` or a ROM loader
+        # fills an ObservableMemory); 'write-overrun' starts with a block that runs past the top of memory (a padded
+        # vector tail), mirrored on the plain list by the same slice assignment.  How the cells got their contents
+        # must not matter to a program (seeded change C11-5: a stale accessor after write() re-bound the subject).
+        plain = [0] * 0x10000
+        backing = [0] * 0x10000
+        obs = ObservableMemory(subject=backing, addrWidth=16)
+        r = random.Random(prog['bgseed'] ^ 0x5a5a)
+        cuts = sorted(set([0, 0x10000] + [r.randrange(0x10000) for _ in range(r.choice([1, 2, 4]))]))
+        blocks = [(a, img[a:b]) for a, b in zip(cuts, cuts[1:])]
+        if mode == 'write-overrun':
+            t = 0x10000 - r.choice([8, 16, 6])
+            blocks = [(t, img[t:] + [0] * r.choice([1, 8, 16]))] + blocks
+        for a, d in blocks:
+            obs.write(a, d)
+            plain[a:a + len(d)] = d
     calls = {'R': 0, 'W': 0}
     cbs = {}
 
@@ -240,6 +260,7 @@ def lockstep(prog, steps, classes=None):
         if r1 != r2:
             return dict(step=n, pc=pc, opcode=opc, what='registers/cycles', plain=dict(zip(REGS, r1)),
                         observed=dict(zip(REGS, r2))), info
+        backing = obs._subject            # the list the memory object stores in NOW
         if plain != backing:
             a = next(i for i in range(0x10000) if i >= len(backing) or plain[i] != backing[i])
             return dict(step=n, pc=pc, opcode=opc, what='memory cell %d' % a, plain=plain[a],
